@@ -503,6 +503,26 @@ def apply_hints(body, hints):
     return body
 
 
+_RULE_MODS = None
+
+
+def find_rule(name):
+    """Rules live in vx/rules.py and vx/rules_*.py (one file per unit family)."""
+    global _RULE_MODS
+    if _RULE_MODS is None:
+        import glob
+        import importlib
+        here = os.path.dirname(os.path.abspath(__file__))
+        _RULE_MODS = []
+        for f in sorted(glob.glob(os.path.join(here, 'rules*.py'))):
+            _RULE_MODS.append(importlib.import_module(os.path.basename(f)[:-3]))
+    for m in _RULE_MODS:
+        fn = getattr(m, name, None)
+        if callable(fn):
+            return fn
+    return None
+
+
 def build_function(repo, d, unit, em, report, vac=False):
     import rules as R
     fx = extract_fn(repo, d['file'], d['impl'], d['name'])
@@ -513,7 +533,7 @@ def build_function(repo, d, unit, em, report, vac=False):
     # always-on drops
     body = R.drop_logging(body, fired)
     for r in d['rules']:
-        fn = getattr(R, r, None)
+        fn = find_rule(r)
         if fn is None:
             raise SystemExit('template error: unknown rule ' + r)
         body, n = fn(body, ctx)
